@@ -277,7 +277,10 @@ def case_families(ctx, rseed):
     for kind, G, X in graph_pairs(r):
         for name, fn, extra in fams[kind]:
             for K in (CNF, OPB):
-                for which, arg in (("cnfgen", G), ("networkx", X)):
+                import networkx as _nx
+                odd = sorted(["", "\n", "!", "\\n", "]", "c", "graph", "node [", "~", "~~"])       # kept in the order of the vertices
+                XO = _nx.relabel_nodes(X, {v: odd[i] for i, v in enumerate(sorted(X.nodes()))}, copy=True)
+                for which, arg in (("cnfgen", G), ("networkx", X), ("networkx with text labels such as '\\n', '', 'graph'", XO)):
                     label = "%s(%s graph)" % (name, which)
                     st, F = checked_call(ctx, label, fn, arg, *extra, formula_class=K)
                     ctx.count("graph_arguments")
@@ -361,6 +364,12 @@ def case_lists(ctx, rseed):
     planted = [[1, -2, 3, 4, -5], [-1, -2, 3, -4, 5]]
     run("RandomKCNF(planted)", g.RandomKCNF, 3, 5, 4, seed=3, planted_assignments=[list(p) for p in planted])
     run("RandomKXOR(planted)", g.RandomKXOR, 3, 5, 3, seed=3, planted_assignments=[list(p) for p in planted])
+    # assignments given as mappings, sets, tuples and mixtures inside the caller's list: whatever the generator makes of
+    # them (a refusal is fine), the caller's list keeps its elements
+    for fam in (g.RandomKCNF, g.RandomKXOR):
+        for mixed in ([{1: True, 2: False, 3: True, 4: True, 5: False}, [1, -2, 3, 4, -5]], [{1, -2, 3, 4, -5}], [(1, -2, 3, 4, -5), [1, -2, 3, 4, -5]],
+                      [{1: True, -2: True, 3: True, 4: True, -5: True}], [frozenset([1, -2, 3, 4, -5]), {3: True}]):
+            run("%s(planted assignments of mixed types)" % fam.__name__, fam, 3, 5, 2, seed=3, planted_assignments=mixed)
     run("VanDerWaerden(lengths)", g.VanDerWaerden, 6, 2, 3, 2)
     for K in (CNF, OPB):
         for lits in ([1, -2, 3], [4, 2, -1, 3], [-1]):
